@@ -4,6 +4,7 @@ import (
 	"bytes"
 	"errors"
 	"fmt"
+	"os"
 	"sort"
 	"strings"
 	"sync/atomic"
@@ -43,6 +44,10 @@ type c06Shared struct {
 	commitSeq int64
 	// saveLo is the length of the physical write log when the last SaveVersion was called
 	saveLo int64
+	// readers of the version AHEAD of the latest one the writer announced
+	aheadNotYet, aheadVisible, aheadEarly int64
+	pruneToLatest                         int64
+	bundleCut                             int64
 	// finished is a real (race-detector-visible) release/acquire pair: the
 	// readers' last action and the writer's last check before it closes the
 	// tree, as an application that closes its store after its queries ended.
@@ -176,8 +181,9 @@ func genC06b(seed uint64, run int, tier string, tweak func(b *drv.Bias)) *drv.Pl
 				ops[j] = c06ReadOps[r.Intn(len(c06ReadOps))]
 			}
 			rid := rd
-			// version selector: 0 = latest (the SDK query path), 1 = oldest retained, 2.. = seeded
-			sel := int64(r.Pick(0, 0, 0, 1, 1, 2, 3, 4))
+			// version selector: 0 = latest (the SDK query path), 1 = oldest retained, 2..4 = seeded,
+			// 5 = AHEAD: the version whose commit may be in flight (read only if GetImmutable hands it out)
+			sel := int64(r.Pick(0, 0, 0, 1, 1, 2, 3, 4, 5, 5))
 			p.Steps = append(p.Steps, drv.Step{ID: id, Op: "r.read", Cache: &rid, N: sel, Reads: ops, K: pool[r.Intn(len(pool))]})
 		}
 	}
@@ -276,7 +282,16 @@ func execC06x(p *drv.Plan, lg *c06Log) *Out {
 	den := seedR.Pick(2, 3, 5, 8, 16, 40)
 	sched := sim.NewSched(seedR, 1, den, p.Schedule, p.UseSchedule)
 	sched.Quantum = time.Duration(p.Config.QuantumUs) * time.Microsecond
-	sched.Probe = func() bool { return tree != nil && iavl.VerifLocksFree(tree) }
+	// (the probe runs on whatever task yields, also on the pruner the constructor
+	// starts: its view of the harness variable is hidden from the race detector,
+	// like every other hand-off of the scheduler)
+	var treeP atomic.Pointer[iavl.MutableTree]
+	sched.Probe = func() bool {
+		sim.RaceDisable()
+		t := treeP.Load()
+		sim.RaceEnable()
+		return t != nil && iavl.VerifLocksFree(t)
+	}
 	iavl.VerifHooks.Yield = sched.Yield
 	iavl.VerifHooks.Spawn = func(o any) { sched.Spawn(o) }
 	iavl.VerifHooks.Enter = func(o any) { sched.Enter(o) }
@@ -303,6 +318,9 @@ func execC06x(p *drv.Plan, lg *c06Log) *Out {
 		return out
 	}
 	tree = w.Tree
+	sim.RaceDisable()
+	treeP.Store(w.Tree)
+	sim.RaceEnable()
 	w.Sim.Hook = func(kind string) { sched.Yield("simdb." + kind) }
 	w.Sim.Who = sched.CurName
 	if lg != nil {
@@ -364,12 +382,24 @@ func execC06x(p *drv.Plan, lg *c06Log) *Out {
 		}
 	}
 	var deferred *drv.Step
+	lastSaveID := -1
+	for _, s := range wsteps {
+		if s.Op == drv.OpSave {
+			lastSaveID = s.ID
+		}
+	}
 	doPrune := func(s drv.Step) *drv.Violation {
 		latest := sh.load(&sh.latest)
 		first := sh.load(&sh.floor)
 		n := s.N
 		if n >= latest {
 			n = latest - 1
+			// Background pruning accepts a request up to the LATEST version and
+			// carries it out once a newer version exists (the pruner retries).
+			// Only where a later commit follows, else the readers would wait for ever.
+			if async && s.ID < lastSaveID && s.N == latest {
+				n = latest
+			}
 		}
 		// only versions nobody reads: stay below the lowest lease
 		for v := first; v <= n; v++ {
@@ -380,6 +410,9 @@ func execC06x(p *drv.Plan, lg *c06Log) *Out {
 		}
 		if n < first {
 			return nil
+		}
+		if n == latest {
+			sh.add(&sh.pruneToLatest, 1)
 		}
 		pinned := false
 		for v := first; v <= n; v++ {
@@ -550,19 +583,37 @@ func execC06x(p *drv.Plan, lg *c06Log) *Out {
 					}
 				}
 				floor := sh.load(&sh.floor)
+				if floor > latest {
+					// the deletion of everything up to the latest version has been
+					// requested (background pruning carries it out once a newer
+					// version exists): nothing to start reading until then
+					sched.BlockUntil(func() bool { return sh.load(&sh.latest) >= sh.load(&sh.floor) || sh.stopped() })
+					latest, floor = sh.load(&sh.latest), sh.load(&sh.floor)
+					if floor > latest {
+						return
+					}
+				}
 				var v int64
+				ahead := false
 				switch {
 				case s.N == 0:
 					v = latest
 				case s.N == 1:
 					v = floor
+				case s.N == 5:
+					// a version GetImmutable hands out is a committed version for its
+					// reader, also when the writer's SaveVersion has not returned yet
+					v, ahead = latest+1, true
+					if v > maxVers || vers[v] == nil {
+						continue
+					}
 				default:
 					v = floor + (s.N*7)%(latest-floor+1)
 				}
 				sh.add(&sh.leases[v], 1)
 				s := s
 				guard(1+rid, s, fmt.Sprintf("reader/v=%s", verKind(v, floor, latest)), func() *drv.Violation {
-					return c06Read(tree, sched, sh, w.Sim, s, v, vers[v], probeKeys, latest, p.Config.Fast, out)
+					return c06Read(tree, sched, sh, w.Sim, s, v, vers[v], probeKeys, latest, p.Config.Fast, ahead, out)
 				})
 				sh.add(&sh.leases[v], -1)
 			}
@@ -598,12 +649,26 @@ func execC06x(p *drv.Plan, lg *c06Log) *Out {
 		}
 		out.Violations = append(out.Violations, &drv.Violation{Prop: "C06", Oracle: "C06.no-deadlock", Symptom: sym, Class: p.Mode, Detail: problem})
 	}
+	if os.Getenv("VERIF_DEBUG_C06") != "" && w.Sim != nil {
+		for _, rec := range w.Sim.Log(0, w.Sim.LogLen()) {
+			fmt.Fprintf(os.Stderr, "write #%d task=%s site=%s\n", rec.Seq, rec.Task, rec.Site)
+			for _, op := range rec.Ops {
+				fmt.Fprintf(os.Stderr, "    del=%v %x (%d bytes)\n", op.Del, op.K, len(op.V))
+			}
+		}
+		fmt.Fprintf(os.Stderr, "adjacency: %v\n", out.States)
+	}
 	out.Trace = fmt.Sprintf("%016x", tr.Sum())
 	out.Probes["prune.pinned-request"] = int(sh.pinnedReq)
 	out.Probes["export.pinned"] = int(sh.exportPinned)
 	out.Probes["export.double-close"] = int(sh.doubleClose)
 	out.Probes["export.late-pin-async"] = int(sh.latePins)
 	out.Probes["prune.inside-commit-bracket"] = int(sh.bracketPrunes)
+	out.Probes["reader.ahead.not-handed-out"] = int(sh.aheadNotYet)
+	out.Probes["reader.ahead.read"] = int(sh.aheadVisible)
+	out.Probes["reader.ahead.read-before-SaveVersion-returned"] = int(sh.aheadEarly)
+	out.Probes["prune.to-latest-async"] = int(sh.pruneToLatest)
+	out.Probes["reader.bundle-ended-after-accepted-deletion"] = int(sh.bundleCut)
 	if async {
 		out.Probes["mode.async"]++
 	} else {
@@ -633,11 +698,14 @@ func verKind(v, floor, latest int64) string {
 
 // c06Read executes one reader bundle on version v and compares every result
 // with the precomputed contents of that version.
-func c06Read(tree *iavl.MutableTree, sched *sim.Sched, sh *c06Shared, disk *sim.SimDB, s drv.Step, v int64, exp *c06Version, keys [][]byte, latestAtStart int64, fastOn bool, out *Out) *drv.Violation {
+func c06Read(tree *iavl.MutableTree, sched *sim.Sched, sh *c06Shared, disk *sim.SimDB, s drv.Step, v int64, exp *c06Version, keys [][]byte, latestAtStart int64, fastOn bool, ahead bool, out *Out) *drv.Violation {
 	cls := "read"
 	ctx := "older"
 	if v == latestAtStart {
 		ctx = "latest"
+	}
+	if ahead {
+		ctx = "ahead"
 	}
 	if fastOn {
 		ctx += "/index-on"
@@ -676,14 +744,35 @@ func c06Read(tree *iavl.MutableTree, sched *sim.Sched, sh *c06Shared, disk *sim.
 				}
 			}
 		}
-		return &drv.Violation{Prop: "C06", Oracle: oracle, Symptom: symptom, Class: what + "@" + ctx + flight, Detail: fmt.Sprintf("reader of version %d (latest at start %d): %s", v, latestAtStart, detail)}
+		c := ctx
+		if ahead {
+			// once the writer has announced the version, its reader is an
+			// ordinary reader of the latest (or an older) version
+			// (v = latest at start + 1, so it has been the latest version at some
+			// time during this bundle: the convention of the other readers, whose
+			// label is the one of the bundle's start)
+			if cur := sh.load(&sh.latest); cur >= v {
+				c = strings.Replace(c, "ahead", "latest", 1)
+			}
+		}
+		return &drv.Violation{Prop: "C06", Oracle: oracle, Symptom: symptom, Class: what + "@" + c + flight, Detail: fmt.Sprintf("reader of version %d (latest at start %d): %s", v, latestAtStart, detail)}
 	}
 	if exp == nil {
 		return nil
 	}
 	it, err := tree.GetImmutable(v)
 	if err != nil {
+		if ahead {
+			sh.add(&sh.aheadNotYet, 1)
+			return nil // not handed out (yet): nothing to read
+		}
 		return bad("C06.read", "version-unreadable", "GetImmutable", fmt.Sprintf("GetImmutable(%d): %v", v, err))
+	}
+	if ahead {
+		sh.add(&sh.aheadVisible, 1)
+		if sh.load(&sh.latest) < v {
+			sh.add(&sh.aheadEarly, 1)
+		}
 	}
 	r := sim.Sub(uint64(s.ID), "c06-read")
 	pick := func() []byte {
@@ -828,6 +917,16 @@ func c06Read(tree *iavl.MutableTree, sched *sim.Sched, sh *c06Shared, disk *sim.
 			}
 			if d := drv.CompareExport(nodes, exp.export); d != "" {
 				return bad("C06.read", "wrong-stream", "Export", d)
+			}
+			if pinnedOnly && sh.load(&sh.floor) > v {
+				// While only the export held the version, the application asked
+				// for its deletion; background pruning accepted the request and
+				// carries it out now that the export is closed. The rest of this
+				// bundle would read a version whose deletion was requested: it ends
+				// here. (Harness false alarm met once the simulated clock advanced
+				// during the tasks' work and the pruner acted that early.)
+				sh.add(&sh.bundleCut, 1)
+				return nil
 			}
 		}
 	}
